@@ -20,7 +20,7 @@ RULE = ('Each case is a batch of sub-cases; a sub-case is a multiset of log reco
         'repeats, absent types) parsed by the CLI\'s own maxwarn(). Non-trivial = at least two types logged at '
         'WARNING, at least one specification that applies to a logged type and a non-zero blanket or numeric '
         'limit; distinct = distinct (counts, specification) pairs. The exhaustive batches enumerate the whole '
-        'sub-domain 2 types x counts<=3 x one optional ERROR x all lists of <=2 specs over a 7-token alphabet.')
+        'sub-domain 2 types x counts<=3 x one optional ERROR x all lists of <=2 specs over a 7-token alphabet. Also: the order in which types are first logged varies, records interleaved; the function is called twice on the same handler.')
 ASSUMPTIONS = ['a type both waived by name and given a numeric limit is unspecified: any result between '
                '"name wins" and "number wins" is accepted',
                'records reach the CountingHandler through logging.Logger.callHandlers as in the CLI']
